@@ -126,12 +126,14 @@ def _all_frames(fr):
     return out
 
 
-def diagnose(w, conc, created, fr_ctx, m, ex, world_addrs, base_mism):
+def diagnose(w, conc, created, fr_ctx, m, ex, world_addrs, base_mism, cheat=None, cheat_addrs=()):
     """which single known deviation (quirk) of the reference makes the mismatch disappear, if any"""
+    from evm.cheats_ref import CheatStop
+
     for q in QUIRKS:
         try:
-            evm, world, fr = E_run_reference(w, conc, created, quirks=frozenset([q]))
-        except (Unsupported, StepLimit):
+            evm, world, fr = E_run_reference(w, conc, created, quirks=frozenset([q]), cheat=cheat, cheat_addrs=cheat_addrs)
+        except (Unsupported, StepLimit, CheatStop):
             continue
         mm = E.compare_frames(m, fr_ctx, fr)
         if not mm and fr.error is None:
@@ -165,7 +167,8 @@ def E_run_reference(w, conc, created, quirks=frozenset(), cheat=None, cheat_addr
 
 
 def engine_run(ch, *, bias=None, unknown_rates=(0.0, 0.0, 0.03, 0.3, 1.0), n_sigmas=6, max_paths=48,
-               keep_log=False, check_pruned=True, options_bias=None, small_keys=False):
+               keep_log=False, check_pruned=True, options_bias=None, small_keys=False, world_fn=None, cheat=None,
+               cheat_addrs=()):
     """one simulated run; returns (violations, stats dict)"""
     # ---------------- swarm (drawn first so that it shrinks last)
     unknown_rate = ch.choose(list(unknown_rates), "sw.unknown")
@@ -175,9 +178,15 @@ def engine_run(ch, *, bias=None, unknown_rates=(0.0, 0.0, 0.03, 0.3, 1.0), n_sig
                    storage_layout=ch.choose(["solidity", "solidity", "generic"], "sw.layout"))
     if options_bias:
         options.update(options_bias)
-    feat = draw_feat(ch, bias)
-    feat.generic_layout = options["storage_layout"] == "generic"
-    w = draw_world(ch, feat, options)
+    from evm.cheats_ref import CheatStop
+
+    if world_fn is not None:
+        feat = gen.Feat()
+        w = world_fn(ch, options)
+    else:
+        feat = draw_feat(ch, bias)
+        feat.generic_layout = options["storage_layout"] == "generic"
+        w = draw_world(ch, feat, options)
 
     seams = E.EngineSeams(ch, unknown_rate=unknown_rate, uid_mode=uid_mode, gc_rate=gc_rate,
                           record_pruned=check_pruned).install()
@@ -234,7 +243,22 @@ def engine_run(ch, *, bias=None, unknown_rates=(0.0, 0.0, 0.03, 0.3, 1.0), n_sig
             conc = inp.concrete(sigma)
             created = E.created_addresses(m, r.context)
             try:
-                evm, world, fr = E_run_reference(w, conc, created)
+                evm, world, fr = E_run_reference(w, conc, created, cheat=cheat, cheat_addrs=cheat_addrs)
+            except CheatStop as cs:
+                probe("ref_" + cs.kind)
+                if cs.kind == "assert-failed":
+                    probe("pairs_judged")
+                    if r.error_kind != "fail-cheat":
+                        # a failed assertion does not end the execution (it raises the failure flag), so the continuing path
+                        # legitimately contains this input too; what is required is *a* path with the failure containing it
+                        need_fail_path.append((dict(sigma), origin, cs.text, r.index))
+                elif cs.kind == "assume-rejected":
+                    probe("pairs_judged")
+                    violations.append(dict(
+                        oracle="ENGINE:assume-semantics", disc="path-admits-rejected-input",
+                        detail=f"path {r.index} ({r.error_kind or 'success'}) contains input {origin} { {k: hex(v) for k, v in sigma.items()} } "
+                               f"which vm.assume rejects", kind="assume"))
+                return
             except Unsupported:
                 probe("ref_unsupported")
                 return
@@ -244,6 +268,13 @@ def engine_run(ch, *, bias=None, unknown_rates=(0.0, 0.0, 0.03, 0.3, 1.0), n_sig
             pv = pathval_for(r)
             if evm.opaque_used or pv.opaque:
                 probe("opaque_skipped")
+                return
+            if r.error_kind == "fail-cheat":
+                probe("pairs_judged")
+                violations.append(dict(
+                    oracle="ENGINE:assert-semantics", disc="failure-but-relation-holds",
+                    detail=f"path {r.index} ends in an assertion failure ({str(r.context.output.error)[:120]}) but for input {origin} "
+                           f"{ {k: hex(v) for k, v in sigma.items()} } every vm.assert* relation on the way holds", kind="assert"))
                 return
             probe("pairs_judged")
             frames = _all_frames(fr)
@@ -257,7 +288,7 @@ def engine_run(ch, *, bias=None, unknown_rates=(0.0, 0.0, 0.03, 0.3, 1.0), n_sig
             if not mm and fr.error is None:
                 mm = E.final_state_mismatches(m, r.ex, world, world_addrs + created)
             if mm:
-                q = diagnose(w, conc, created, r.context, m, r.ex, world_addrs + created, mm)
+                q = diagnose(w, conc, created, r.context, m, r.ex, world_addrs + created, mm, cheat, cheat_addrs)
                 kind = mm[0][0]
                 disc = f"quirk={q}" if q else f"{kind}"
                 subs = [f for f in _all_frames(fr) if f is not fr]
@@ -269,6 +300,7 @@ def engine_run(ch, *, bias=None, unknown_rates=(0.0, 0.0, 0.03, 0.3, 1.0), n_sig
                                        ref_subframes=len(subs),
                                        ref_failed_subframes=sum(1 for f in subs if f.error is not None)))
 
+        need_fail_path = []
         # ---------------- model-first: at least one sigma per satisfiable reported path
         nonstuck = [r for r in reports if not r.stuck]
         for r in nonstuck:
@@ -309,10 +341,15 @@ def engine_run(ch, *, bias=None, unknown_rates=(0.0, 0.0, 0.03, 0.3, 1.0), n_sig
             # coverage (C02)
             if not members and not stuck_member and not unknown_any:
                 try:
-                    evm, world, fr = E_run_reference(w, conc, [])
+                    evm, world, fr = E_run_reference(w, conc, [], cheat=cheat, cheat_addrs=cheat_addrs)
                     ref_ok = not evm.opaque_used
                 except (Unsupported, StepLimit):
                     ref_ok = False
+                except CheatStop as cs:
+                    # an input vm.assume rejects must not be covered; one that fails an assertion must be
+                    probe("uncovered_" + cs.kind)
+                    ref_ok = cs.kind == "assert-failed"
+                    fr = type("F", (), {"error": "assertion failure", "output": b""})()
                 if ref_ok and max(conc["balances"].values(), default=0) <= 2**64:
                     if flagged:
                         probe("uncovered_but_flagged")
@@ -324,6 +361,21 @@ def engine_run(ch, *, bias=None, unknown_rates=(0.0, 0.0, 0.03, 0.3, 1.0), n_sig
                                    f"{fr.error or 'success'} {fr.output.hex()[:64]}", kind="uncovered"))
             else:
                 probe("sigma_covered")
+        # ---------------- inputs that fail an assertion must be in a path that carries the failure
+        fail_paths = [r for r in reports if r.error_kind == "fail-cheat"]
+        for sigma, origin, text, ridx in need_fail_path[:16]:
+            found = False
+            for r in fail_paths:
+                st, _m = pathval_for(r).solve([(vars_[n], v) for n, v in sigma.items()])
+                if st in ("sat", "unknown"):
+                    found = True
+                    break
+            if not found:
+                violations.append(dict(
+                    oracle="ENGINE:assert-semantics", disc="relation-false-but-no-failure",
+                    detail=f"input {origin} { {k: hex(v) for k, v in sigma.items()} } makes {text} false (it is in path {ridx}), but none of the "
+                           f"{len(fail_paths)} paths that end in an assertion failure contains it", kind="assert", cheat=text))
+                break
         # ---------------- pruned alternatives (C02)
         if check_pruned:
             n_checked = 0
